@@ -1,2 +1,209 @@
--- driver stub for C17 (replaced when the model is built)
-def main : IO Unit := pure ()
+import PyramidModel.Prelude
+import PyramidModel.Url
+/-! Driver for C17: one JSON case per line.  Texts come in as JSON strings and go out as lists of code points
+(the harness reads the reply with `splitlines`, which would break on U+2028 & co inside a raw string).
+
+ops
+* `url`       a helper call: env, routes, statics, helper name, arguments → the URL (or an error tag) and, computed
+              by the model's copy of the standard parser on that URL, the split / decoded elements / decoded query
+              pairs / decoded anchor / the URL minus scheme and authority / the wanted (scheme, host, port)
+* `quote`, `quote_plus`, `urlencode`                      the encoders alone
+* `urlsplit`, `parse_qsl`, `unquote`, `unquote_plus`      the standard parser alone (on arbitrary text) -/
+open Pyr Pyr.Trav Pyr.Pct Pyr.Url Lean
+
+def jt (t : Text) : Json := toJson (t.map Char.toNat)
+def jot : Option Text → Json
+  | some t => jt t
+  | none => Json.null
+
+def txt (j : Json) : Except String Text := do
+  let s : String ← fromJson? j
+  pure s.toList
+
+def otxt (j : Json) : Except String (Option Text) :=
+  match j with
+  | .null => pure none
+  | j => do pure (some (← txt j))
+
+def fieldT (j : Json) (k : String) : Except String Text := do txt (← getField j k)
+def fieldOT (j : Json) (k : String) : Except String (Option Text) :=
+  match j.getObjVal? k with
+  | .ok v => otxt v
+  | .error _ => pure none
+
+def arr (j : Json) : Except String (List Json) :=
+  match j with
+  | .arr xs => pure xs.toList
+  | _ => throw "array expected"
+
+def parseQVal (j : Json) : Except String QVal :=
+  match j with
+  | .null => pure .none
+  | .arr xs => do pure (.many (← xs.toList.mapM txt))
+  | j => do pure (.one (← txt j))
+
+def parsePairs (j : Json) : Except String (List (Text × QVal)) := do
+  (← arr j).mapM fun p => do
+    match p with
+    | .arr #[k, v] => pure ((← txt k), (← parseQVal v))
+    | _ => throw "pair expected"
+
+def parseQuery (j : Json) : Except String Query :=
+  match j with
+  | .null => pure .absent
+  | j => do
+    let t : String ← getAs j "t"
+    match t with
+    | "null" => pure .null
+    | "str" => do pure (.str (← fieldT j "v"))
+    | "pairs" => do
+      let tr : Bool := match j.getObjVal? "truthy" with
+        | .ok (.bool b) => b
+        | _ => false
+      pure (.pairs (← parsePairs (← getField j "v")) tr)
+    | _ => throw "bad query tag"
+
+def parseRVal (j : Json) : Except String RVal :=
+  match j with
+  | .arr xs => do pure (.many (← xs.toList.mapM txt))
+  | j => do pure (.one (← txt j))
+
+def parseKw (j : Json) : Except String Kw := do
+  (← arr j).mapM fun p => do
+    match p with
+    | .arr #[k, v] => pure ((← txt k), (← parseRVal v))
+    | _ => throw "kw pair expected"
+
+def parsePiece (j : Json) : Except String Piece := do
+  match j with
+  | .arr #[.str "l", t] => pure (.lit (← txt t))
+  | .arr #[.str "p", t] => pure (.ph (← txt t))
+  | .arr #[.str "s", t] => pure (.star (← txt t))
+  | _ => throw "bad piece"
+
+def parseRoutes (j : Json) : Except String Routes := do
+  (← arr j).mapM fun r => do
+    match r with
+    | .arr #[n, ps] => pure ((← txt n), (← (← arr ps).mapM parsePiece))
+    | _ => throw "bad route"
+
+def parseStatics (j : Json) : Except String (List StaticReg) := do
+  (← arr j).mapM fun r => do
+    match r with
+    | .arr #[u, s, n] => pure ⟨(← otxt u), (← txt s), (← txt n)⟩
+    | _ => throw "bad static registration"
+
+def parseEnv (j : Json) : Except String Env := do
+  pure ⟨(← fieldT j "scheme"), (← fieldOT j "host"), (← fieldT j "server_name"), (← fieldT j "server_port"),
+        (← fieldT j "script_name")⟩
+
+def parseOvr (j : Json) : Except String Ovr := do
+  let q ← match j.getObjVal? "query" with
+    | .ok v => parseQuery v
+    | .error _ => pure Query.absent
+  let a ← fieldOT j "anchor"
+  pure ⟨(← fieldOT j "app_url"), (← fieldOT j "scheme"), (← fieldOT j "host"), (← fieldOT j "port"), q, a.getD []⟩
+
+def errTag : Url.Err → String
+  | .keyError => "keyerror"
+  | .noStatic => "nostatic"
+  | .noCurrentRoute => "nocurrent"
+  | .outside => "outside"
+
+def splitJson (s : Split) : Json :=
+  Json.mkObj [("scheme", jt s.scheme), ("netloc", jt s.netloc), ("path", jt s.path), ("query", jt s.query),
+              ("fragment", jt s.fragment)]
+
+def pairsJson (ps : List (Text × Text)) : Json := Json.arr (ps.map fun p => Json.arr #[jt p.1, jt p.2]).toArray
+
+def listStr (j : Json) : Except String (List Text) := do (← arr j).mapM txt
+
+def runUrl (j : Json) : Except String Json := do
+  let helper : String ← getAs j "helper"
+  let e ← parseEnv (← getField j "env")
+  let routes ← parseRoutes (← getField j "routes")
+  let statics ← match j.getObjVal? "statics" with
+    | .ok v => parseStatics v
+    | .error _ => pure []
+  let o ← parseOvr (← getField j "ovr")
+  let elems ← match j.getObjVal? "elements" with
+    | .ok v => listStr v
+    | .error _ => pure []
+  let kw ← match j.getObjVal? "kw" with
+    | .ok v => parseKw v
+    | .error _ => pure []
+  let route ← fieldOT j "route"
+  let path ← fieldOT j "path"
+  let names ← match j.getObjVal? "resource" with
+    | .ok v => listStr v
+    | .error _ => pure []
+  let rr : Option ResRoute ← match j.getObjVal? "res_route" with
+    | .ok .null => pure none
+    | .ok v => do pure (some ⟨(← fieldT v "route"), (← fieldT v "rem"), (← parseKw (← getField v "kw"))⟩)
+    | .error _ => pure none
+  let cur : Cur ← match j.getObjVal? "cur" with
+    | .ok .null => pure ⟨none, [], []⟩
+    | .ok v => do
+      let gp ← (← arr (← getField v "get")).mapM fun p => do
+        match p with
+        | .arr #[k, x] => pure ((← txt k), (← txt x))
+        | _ => throw "get pair expected"
+      pure ⟨(← fieldOT v "matched"), (← parseKw (← getField v "matchdict")), gp⟩
+    | .error _ => pure ⟨none, [], []⟩
+  let curName : Option Text ← match j.getObjVal? "cur" with
+    | .ok .null => pure none
+    | .ok v => fieldOT v "route_name"
+    | .error _ => pure none
+  let r : Except Url.Err Text ← match helper with
+    | "route_url" => pure (routeUrl e routes (route.getD []) elems kw o)
+    | "route_path" => pure (routePath e routes (route.getD []) elems kw o)
+    | "resource_url" => pure (resourceUrl e routes names elems o rr)
+    | "resource_path" => pure (resourcePath e routes names elems o rr)
+    | "static_url" => pure (staticUrl e routes statics (path.getD []) o)
+    | "static_path" => pure (staticPath e routes statics (path.getD []) o)
+    | "current_route_url" => pure (currentRouteUrl e routes cur curName elems kw o)
+    | "current_route_path" => pure (currentRoutePath e routes cur curName elems kw o)
+    | _ => throw "unknown helper"
+  let w := wanted e o.scheme o.host o.port
+  let wj := Json.arr #[jt w.1, jt w.2.1, jot w.2.2]
+  match r with
+  | .error er => pure (Json.mkObj [("err", Json.str (errTag er)), ("wanted", wj)])
+  | .ok u =>
+    let sp := urlsplit u
+    let dec : List (String × Json) := match sp with
+      | none => [("split", Json.null)]
+      | some s =>
+        [("split", splitJson s),
+         ("elements", match lastSegments s.path elems.length with
+            | some xs => Json.arr (xs.map jt).toArray
+            | none => Json.null),
+         ("query", match parseQsl s.query with
+            | some ps => pairsJson ps
+            | none => Json.null),
+         ("query_str", jot (unquote s.query)),
+         ("anchor", jot (unquote s.fragment))]
+    pure (Json.mkObj ([("url", jt u), ("minus", jot (minusAuthority u)), ("wanted", wj)] ++ dec))
+
+def safeOf (j : Json) : Except String (List UInt8) := do
+  let s ← fieldT j "safe"
+  pure (s.map fun c => UInt8.ofNat c.toNat)
+
+def main : IO Unit := jsonDriver fun j => do
+  let op : String ← getAs j "op"
+  match op with
+  | "url" => runUrl j
+  | "quote" => do pure (Json.mkObj [("r", jt (quote (← safeOf j) (← fieldT j "s")))])
+  | "quote_plus" => do pure (Json.mkObj [("r", jt (quotePlus (← safeOf j) (← fieldT j "s")))])
+  | "urlencode" => do pure (Json.mkObj [("r", jt (urlencode (← parsePairs (← getField j "pairs")))),
+                                        ("expand", pairsJson (expand (← parsePairs (← getField j "pairs"))))])
+  | "urlsplit" => do
+    pure (Json.mkObj [("r", match urlsplit (← fieldT j "s") with
+      | some s => splitJson s
+      | none => Json.null)])
+  | "parse_qsl" => do
+    pure (Json.mkObj [("r", match parseQsl (← fieldT j "s") with
+      | some ps => pairsJson ps
+      | none => Json.null)])
+  | "unquote" => do pure (Json.mkObj [("r", jot (unquote (← fieldT j "s")))])
+  | "unquote_plus" => do pure (Json.mkObj [("r", jot (unquotePlus (← fieldT j "s")))])
+  | _ => throw "unknown op"
